@@ -72,6 +72,112 @@ def check_doc(sh, doc, style_seed, knobs=None, label='random', expect=None):
     return got
 
 
+# --------------------------------------------------------------------------- same-line layouts
+def line_kind(ctx, text):
+    """coarse class of one logical line of a canonically written document"""
+    import re
+    s_ = text.strip()
+    first = s_.split('\n')[0]
+    if s_ == '}':
+        return 'close:' + ctx
+    if s_.endswith('{'):
+        return 'open:' + first.split()[0].lower().rstrip(':')
+    low = first.lower()
+    if low.startswith('note:') or low.startswith('note '):
+        return 'note:' + ctx
+    if ctx == 'top':
+        return 'refshort' if low.startswith('ref') else 'top:' + low.split()[0]
+    if ctx == 'table_body':
+        return 'prop' if re.match(r'^("[^"]*"|\w+)\s*:\s*[\'"]', first) else 'col'
+    return 'item:' + ctx
+
+
+# pairs (kind of the line, kind of the next line) that may share one physical line, separated by a blank.  Calibrated on
+# the current tree (PV_C01_CALIBRATE=1 prints the table): a pair is listed when EVERY document with that join was accepted.
+# For a listed pair acceptance is required; for any pair, an accepted document must give exactly the expected model.
+ADMITTED_JOINS = {
+    'close:indexes_body|close:table_body',
+    'close:note_block|close:group_body',
+    'close:note_block|close:project_body',
+    'close:note_block|close:table_body',
+    'close:note_block|open:indexes',
+    'item:enum_body|item:enum_body',
+    'item:group_body|close:group_body',
+    'item:group_body|item:group_body',
+    'item:group_body|note:group_body',
+    'item:group_body|open:note',
+    'item:indexes_body|close:indexes_body',
+    'item:indexes_body|item:indexes_body',
+    'item:note_block|close:note_block',
+    'item:project_body|close:project_body',
+    'item:project_body|item:project_body',
+    'item:project_body|note:project_body',
+    'item:project_body|open:note',
+    'item:ref_block|close:ref_block',
+    'note:group_body|close:group_body',
+    'note:project_body|close:project_body',
+    'note:table_body|close:table_body',
+    'note:table_body|open:indexes',
+    'open:enum|item:enum_body',
+    'open:indexes|item:indexes_body',
+    'open:note|item:note_block',
+    'open:project|close:project_body',
+    'open:project|item:project_body',
+    'open:project|note:project_body',
+    'open:project|open:note',
+    'open:ref|item:ref_block',
+    'open:tablegroup|close:group_body',
+    'open:tablegroup|item:group_body',
+    'open:tablegroup|note:group_body',
+    'open:tablegroup|open:note',
+    'open:table|col',
+    'prop|close:table_body',
+    'prop|note:table_body',
+    'prop|open:indexes',
+    'prop|open:note',
+    'prop|prop',
+    'refshort|open:enum',
+    'refshort|open:note',
+    'refshort|open:project',
+    'refshort|open:ref',
+    'refshort|open:table',
+    'refshort|open:tablegroup',
+    'refshort|refshort',
+}
+
+
+def joined_layouts(sh, doc, seed_, calib=None):
+    import os
+    knobs = dict(surface.CANON, comments='none', note_pos='random', final_newline='yes')
+    items, marks = surface.render_lines(doc, seed_, knobs)
+    exp = am.expected(doc)
+    for i in range(len(items) - 1):
+        if i not in marks or i + 1 not in marks:
+            continue
+        pair = (line_kind(marks[i], items[i]), line_kind(marks[i + 1], items[i + 1]))
+        text = '\n'.join(items[:i] + [items[i] + ' ' + items[i + 1].lstrip()] + items[i + 2:]) + '\n'
+        sh.case(text, nontrivial=True, sample={'suite': 'joined', 'pair': list(pair), 'text': text[:600]})
+        sh.count('obs.docs.joined')
+        db, err = parse(text, allow_properties=doc.allow_properties)
+        pk = f'{pair[0]}|{pair[1]}|{"props" if doc.allow_properties else "noprops"}'
+        case = {'kind': 'parse_compare', 'text': text, 'expected': exp, 'allow_properties': doc.allow_properties}
+        if calib is not None:
+            calib.setdefault(pk, [0, 0])[0 if err is None else 1] += 1
+        if err is not None:
+            if not monitors.is_parse_error(err) and type(err).__name__ != 'SyntaxError':
+                cls, where = monitors.classify_exc(err)
+                sh.violation('parse', f'joined:not-a-syntax-error:{cls}:{pk}', f'{cls}: {err}', case, {'suite': 'joined'})
+            elif pk.rsplit('|', 1)[0] in ADMITTED_JOINS:
+                sh.violation('parse', f'joined:rejected:{pk}', f'{type(err).__name__}: {err}', case, {'suite': 'joined'})
+            else:
+                sh.count('obs.joined.rejected')
+            continue
+        sh.count('obs.joined.accepted')
+        d = am.diff(exp, walk.content(db))
+        if d:
+            sh.violation('content', f'joined:content:{pk}:' + path_skeleton(d[0]), d[:4], case, {'suite': 'joined'})
+
+
 def run_shard(spec, tier, seed, budget_s):
     sh = Shard(ID, budget_s)
     i, n = spec['shard'], spec['of']
@@ -92,6 +198,20 @@ def run_shard(spec, tier, seed, budget_s):
                 check_doc(sh, doc, f'{seed}-{j}-{s}', label='product.' + name)
             check_doc(sh, doc, 0, surface.CANON, label='product.' + name)
             sh.count('obs.product_docs')
+        # ---- same-line layouts: every pair of neighbouring logical lines of a canonically written document joined once
+        import os
+        jrng = random.Random(f'{seed}-joined-{i}')
+        calib = {} if os.environ.get('PV_C01_CALIBRATE') else None
+        for jk in range({'quick': 6, 'thorough': 80}[tier] * (5 if calib is not None else 1)):
+            if sh.out_of_time():
+                break
+            jdoc = gen.random_doc(jrng, jrng.choice(['tiny', 'small']), 'plain', props=jrng.random() < 0.5, comments=False,
+                                  flavours=('bare', 'bare', 'space'), coin=False)
+            joined_layouts(sh, jdoc, f'{seed}-{i}-j{jk}', calib)
+        if calib is not None:
+            for pk, (a_, r_) in calib.items():
+                sh.count(f'obs.calib.{pk}.acc', a_)
+                sh.count(f'obs.calib.{pk}.rej', r_)
         # ---- random whole documents
         rng = random.Random(f'{seed}-random-{i}')
         k = 0
@@ -163,7 +283,8 @@ def conclusive(agg, tier):
     c = agg['counters']
     out = []
     for k in ('obs.docs.product.column', 'obs.docs.product.index', 'obs.docs.product.ref',
-              'obs.docs.random', 'obs.docs.random.samebare', 'obs.docs.random.kwprefix', 'obs.docs.random.standalone'):
+              'obs.docs.random', 'obs.docs.random.samebare', 'obs.docs.random.kwprefix', 'obs.docs.random.standalone',
+              'obs.docs.joined', 'obs.joined.accepted'):
         if not c.get(k):
             out.append(f'sub-suite {k} executed no case')
     return out
